@@ -304,6 +304,29 @@ func generate(thorough bool, emit func(kase)) {
 			}
 		}
 	}
+	// (ii-e) the same, the OPT record carrying ONE option: every option code 0..20 (+3 high ones) x 0..5 data bytes x two fills
+	// (cookies, padding, extended DNS errors, ... of any length, well-formed for their code or not), under response codes that
+	// the resolver reports and under rcode 0
+	for _, rc := range []int{0, 2, 3, 5} {
+		for _, hi := range []byte{0, 1} {
+			for _, code := range []int{0, 1, 2, 3, 4, 5, 6, 7, 8, 9, 10, 11, 12, 13, 14, 15, 16, 17, 18, 19, 20, 0x0f00, 65001, 65535} {
+				for dl := 0; dl <= 5; dl++ {
+					for _, fill := range []byte{0, 0xff} {
+						m := hdr(1, 0, 0, 1)
+						m[3] = m[3]&0xf0 | byte(rc)
+						m = append(m, qA...)
+						m = append(m, 0)
+						opt := rrFixed(41, uint32(hi)<<24, 4+dl)
+						opt[2], opt[3] = 0x10, 0x00
+						m = append(m, opt...)
+						m = append(m, byte(code>>8), byte(code), 0, byte(dl))
+						m = append(m, bytes.Repeat([]byte{fill}, dl)...)
+						emit(kase{Family: "opt-option", Desc: fmt.Sprintf("rcode%d ext%d code%d len%d fill%#x", rc, hi, code, dl, fill), Msg: m})
+					}
+				}
+			}
+		}
+	}
 	// (v) DoH response bodies: content-length missing / lying / over the cap, with bodies up to 8 MiB (see runCase)
 	for _, v := range []string{"no-length-1MiB", "no-length-8MiB", "length-65536", "length-70000", "length-negative", "length-garbage", "length-10-body-5", "length-5-body-1MiB", "length-65535-full", "gzip-8MiB-in-9KB", "deflate-8MiB-in-9KB", "status-403", "status-400", "status-403-body-8MiB", "status-404-body-8MiB-no-length"} {
 		emit(kase{Family: "doh-body", Desc: v, Msg: append(hdr(1, 0, 0, 0), qA...)})
